@@ -935,6 +935,31 @@ func runDot(c *Ctx) *Violation {
 	}
 	c.agg.Exhaustive["dot/hostile_bytes_per_position"] = int64(len(dotHostile))
 	c.agg.Exhaustive["dot/truncation_points_per_output"] = int64(len(b))
+	// a lost byte at every position, a stray hostile byte before every
+	// position, and a few duplicated spans (a retransmitted block)
+	for pos := 0; pos < len(b); pos++ {
+		p := pos
+		cor := append(append([]byte(nil), b[:pos]...), b[pos+1:]...)
+		if v := try("del@k", true, cor, func() string { return fmt.Sprintf("byte %d %q deleted", p, b[p]) }, uint64(pos), 1<<20); v != nil {
+			return v
+		}
+		x := dotHostile[c.T.Choose(simrt.KFault, len(dotHostile))]
+		ins := append(append(append([]byte(nil), b[:pos]...), x), b[pos:]...)
+		if v := try("ins@k", true, ins, func() string { return fmt.Sprintf("byte %q inserted before position %d", x, p) }, uint64(pos), uint64(x), 1<<21); v != nil {
+			return v
+		}
+	}
+	for i := 0; i < 12 && len(b) > 2; i++ {
+		from := c.T.Choose(simrt.KFault, len(b)-1)
+		n := 1 + c.T.Choose(simrt.KFault, len(b)-from)
+		if n > 40 {
+			n = 40
+		}
+		dup := append(append(append([]byte(nil), b[:from+n]...), b[from:from+n]...), b[from+n:]...)
+		if v := try("dup(span)", true, dup, func() string { return fmt.Sprintf("bytes %d..%d duplicated", from, from+n) }, uint64(from), uint64(n), 1<<22); v != nil {
+			return v
+		}
+	}
 
 	// ---- structured graphs (last: findings here do not hide the arms above) ----
 	return runDotStructured(c, used)
